@@ -86,8 +86,9 @@ let init () =
       let cv = curve c in
       let rs = Array.of_list (List.map C.z_of_hex (if tape = "-" then [] else String.split_on_char ',' tape)) in
       let tape_fn (i : nat) : z = let k = int_of_nat i in if k < Array.length rs then rs.(k) else Z0 in
-      let sp_opt = if sp = "none" then None else Some (nat_of_int (int_of_string sp)) in
-      out_proof (encrypt_with_proof cv.ops cv.q cv.repr sha256 rsa_n rsa_enc (C.z_of_hex x) pk
+      (* the parameter travels as hex at its full usize width *)
+      let sp_opt = if sp = "none" then None else Some (C.n_of_hex sp) in
+      out_proof (encrypt_with_proof_usize cv.ops cv.q cv.repr sha256 rsa_n rsa_enc (C.z_of_hex x) pk
                    (C.bytes_of_hex label) sp_opt (C.bytes_of_hex seed) tape_fn)
     | _ -> failwith "c09.encrypt: arity");
   Proto.register "c09.tobytes" (fun args -> match args with
